@@ -47,10 +47,25 @@ fn write_options(opts: &Value) -> Result<WriteOptions, String> {
         matrix_vector_types: mv,
         rustfmt: opt_bool(opts, "rustfmt"),
         validate: if opt_bool(opts, "validate") {
-            Some(ValidationOptions::default())
+            Some(match opts.get("caps").and_then(Value::as_str) {
+                None => ValidationOptions::default(),
+                Some(c) => ValidationOptions { capabilities: capabilities(c)? },
+            })
         } else {
             None
         },
+    })
+}
+
+/// capability sets by name: the validator's verdict depends on them (C17 / C18: a call must not remember another call's)
+fn capabilities(name: &str) -> Result<naga::valid::Capabilities, String> {
+    use naga::valid::Capabilities as C;
+    Ok(match name {
+        "all" => C::all(),
+        "empty" => C::empty(),
+        "no_push_constant" => C::all().difference(C::PUSH_CONSTANT),
+        "no_float64" => C::all().difference(C::FLOAT64),
+        other => return Err(format!("unknown caps `{}`", other)),
     })
 }
 
@@ -115,7 +130,11 @@ fn run_case(case: &Value) -> Value {
             let validated = catch_unwind(AssertUnwindSafe(|| {
                 naga::valid::Validator::new(
                     naga::valid::ValidationFlags::all(),
-                    naga::valid::Capabilities::all(),
+                    case.get("opts")
+                        .and_then(|o| o.get("caps"))
+                        .and_then(Value::as_str)
+                        .and_then(|c| capabilities(c).ok())
+                        .unwrap_or(naga::valid::Capabilities::all()),
                 )
                 .validate(&module)
             }));
@@ -221,10 +240,12 @@ fn gen(cases_path: &str, results_path: &str) -> Result<(), String> {
     let results: Mutex<Vec<Option<String>>> = Mutex::new(vec![None; total]);
     let next = AtomicUsize::new(0);
     const CHUNK: usize = 4;
-    let threads = std::thread::available_parallelism()
-        .map(|n| n.get())
-        .unwrap_or(4)
-        .min(total.div_ceil(CHUNK).max(1));
+    // DRIVER_THREADS: more (or fewer) workers than cores, DRIVER_CHUNK: cases handed to a worker at a time
+    let env_usize = |k: &str| std::env::var(k).ok().and_then(|v| v.parse::<usize>().ok()).filter(|v| *v > 0);
+    let chunk = env_usize("DRIVER_CHUNK").unwrap_or(CHUNK);
+    let threads = env_usize("DRIVER_THREADS")
+        .unwrap_or_else(|| std::thread::available_parallelism().map(|n| n.get()).unwrap_or(4))
+        .min(total.div_ceil(chunk).max(1));
 
     std::thread::scope(|scope| {
         for t in 0..threads {
@@ -236,11 +257,11 @@ fn gen(cases_path: &str, results_path: &str) -> Result<(), String> {
                 // the generator recurses over call graphs and types
                 .stack_size(512 << 20)
                 .spawn_scoped(scope, move || loop {
-                    let start = next.fetch_add(CHUNK, Ordering::SeqCst);
+                    let start = next.fetch_add(chunk, Ordering::SeqCst);
                     if start >= total {
                         break;
                     }
-                    for i in start..(start + CHUNK).min(total) {
+                    for i in start..(start + chunk).min(total) {
                         let out = match serde_json::from_str::<Value>(&lines[i]) {
                             Ok(case) => catch_unwind(AssertUnwindSafe(|| run_case(&case)))
                                 .unwrap_or_else(|p| {
